@@ -109,6 +109,16 @@ func (cache *MemoryCache[K, V]) Set(key K, value V, ttlSec float64) error {
 		ttlDuration.Nanoseconds()
 
 	cache.mutex.Lock()
+	if cache.calculateCacheSize && cache.currentCacheSize+itemSize > cache.maxCacheSize {
+		// the check above is only a cheap early exit; concurrent writers that all passed it
+		// must not push the cache over its limit together
+		currentCacheSize := cache.currentCacheSize
+		cache.mutex.Unlock()
+		return fmt.Errorf(
+			"Cannot add item: max cache size would be exceeded."+
+				" Current cache size is %v",
+			currentCacheSize)
+	}
 	cache.cache[key] = ValueWrapper[V]{value, expirationTimeNano}
 	if cache.calculateCacheSize {
 		cache.currentCacheSize += itemSize
